@@ -100,4 +100,5 @@ func runC12(r *Run, rng *Rng, thorough bool) {
 			r.Fail("cbor-json-cbor", fmt.Sprintf("CBOR->claims->JSON->claims->CBOR differs: %x vs %x (err %v)", b, b3, err))
 		}
 	})
+	extJSON(r, rng, map[bool]int{false: 400, true: 10000}[thorough])
 }
